@@ -1,0 +1,53 @@
+//go:build verif
+
+package rss
+
+import "github.com/makiuchi-d/gozxing"
+
+// Re-exports of unexported steps and of the pair history of the RSS-14 row reader for the /verif
+// correspondence harness (work package rowsrest).  Compiled only with `-tags verif`; nothing here
+// changes behaviour.
+
+// VerifRowsFindFinderPattern returns the range found and the four finder counters left behind.
+func VerifRowsFindFinderPattern(row *gozxing.BitArray, right bool) ([]int, []int, error) {
+	r := NewRSS14Reader().(*rss14Reader)
+	se, e := r.findFinderPattern(row, right)
+	return se, append([]int{}, r.GetDecodeFinderCounters()...), e
+}
+
+// VerifRowsParseFinderPattern runs findFinderPattern and parseFoundFinderPattern on the row as given
+// (the caller reverses the row for the right pattern, as DecodeRow does).
+func VerifRowsParseFinderPattern(row *gozxing.BitArray, rowNumber int, right bool) (*FinderPattern, error) {
+	r := NewRSS14Reader().(*rss14Reader)
+	se, e := r.findFinderPattern(row, right)
+	if e != nil {
+		return nil, e
+	}
+	return r.parseFoundFinderPattern(row, rowNumber, right, se)
+}
+
+// VerifRowsDecodeDataCharacter: finder pattern as above, then one data character.
+func VerifRowsDecodeDataCharacter(row *gozxing.BitArray, right, outsideChar bool) (*DataCharacter, error) {
+	r := NewRSS14Reader().(*rss14Reader)
+	se, e := r.findFinderPattern(row, right)
+	if e != nil {
+		return nil, e
+	}
+	fp, e := r.parseFoundFinderPattern(row, 0, right, se)
+	if e != nil {
+		return nil, e
+	}
+	return r.decodeDataCharacter(row, fp, outsideChar)
+}
+
+func VerifRowsDecodePair(row *gozxing.BitArray, right bool, rowNumber int, hints map[gozxing.DecodeHintType]interface{}) *Pair {
+	return NewRSS14Reader().(*rss14Reader).decodePair(row, right, rowNumber, hints)
+}
+
+func VerifRowsCombins(n, r int) int { return combins(n, r) }
+
+// VerifRowsPairs returns the pair history of an RSS-14 reader instance (left, right).
+func VerifRowsPairs(reader gozxing.Reader) ([]*Pair, []*Pair) {
+	r := reader.(*rss14Reader)
+	return r.possibleLeftPairs, r.possibleRightPairs
+}
